@@ -10,9 +10,10 @@ PROP = "C01"
 def plans(tier):
     s = vlib.seed()
     if tier == "quick":
-        return [dict(gens="star,hole,collapse", variants="base", n=2400, W=6, nmax=14, bias=0.6, seed=s),
-                dict(gens="star,hole", variants="base", n=800, W=4, nmax=20, bias=0.8, seed=s + 1)]
-    return [dict(gens="star,hole,collapse", variants="base", n=60000, W=6, nmax=16, bias=0.6, seed=s),
+        return [dict(gens="star,hole,collapse,rect", variants="base", n=6000, W=6, nmax=14, bias=0.6, seed=s),
+                dict(gens="star,hole", variants="base", n=5000, W=4, nmax=20, bias=0.85, seed=s + 1),
+                dict(gens="star", variants="base", n=3000, W=3, nmax=24, bias=0.95, seed=s + 2)]
+    return [dict(gens="star,hole,collapse,rect", variants="base", n=70000, W=6, nmax=16, bias=0.6, seed=s),
             dict(gens="star,hole", variants="base", n=30000, W=4, nmax=24, bias=0.85, seed=s + 1),
             dict(gens="star,hole,collapse", variants="base", n=20000, W=8, nmax=24, bias=0.5, seed=s + 2),
             dict(gens="star", variants="base", n=20000, W=3, nmax=28, bias=0.9, seed=s + 3)]
